@@ -211,6 +211,14 @@ def special_rulesets(work):
         d = os.path.join(work, name)
         rulesets.write_ruleset(d, term, base, omen_prob=[(1, 0.5), (2, 0.25)], omen_keyspace=[(1, 1), (2, 1)])
         out.append((d, {'kind': name, 'base': base}))
+    # a dominant Markov structure next to ONE structure whose terminals all have probability 1: p / (1 - P(M)) rounds to a float
+    # just above 1.0 (0.1 / (1.0 - 0.9) = 1.0000000000000002) - the rescaled pre-terminal must still be emitted
+    term1 = {'A2': [('ab', 1.0)], 'C2': [('LL', 1.0)], 'D1': [('7', 1.0)]}
+    for name, base in (('m_heavy_09', [('M', 0.9), ('A2', 0.1)]), ('m_heavy_08', [('M', 0.8), ('D1', 0.2)]),
+                       ('m_heavy_07', [('M', 0.7), ('A2D1', 0.3)])):
+        d = os.path.join(work, name)
+        rulesets.write_ruleset(d, term1, base, omen_prob=[(1, 0.5), (2, 0.25)], omen_keyspace=[(1, 1), (2, 1)])
+        out.append((d, {'kind': name, 'base': base}))
     return out
 
 
